@@ -13,7 +13,14 @@ K = 4096
 
 
 def gen_layout(rng, quick):
-    kind = rng.choice(['lead', 'trail', 'inter', 'inter', 'empty', 'many', 'tiny-data'])
+    kind = rng.choice(['lead', 'trail', 'inter', 'inter', 'empty', 'many', 'tiny-data', 'quarter-full', 'big-extent'])
+    if kind == 'quarter-full':       # a sparse file that is far from empty: a fifth to a half of it is data (disk images, databases)
+        out = []
+        for q in range(rng.randint(2, 4)):
+            out += [('seg', rng.choice([1, 2]) * MB, rng.randrange(1, 1 << 20)), ('hole', rng.choice([2, 3]) * MB)]
+        return out
+    if kind == 'big-extent':          # data extents of several blocks that do NOT start at offset 0
+        return [('hole', rng.choice([3, 16]) * MB), ('seg', rng.choice([2, 4]) * MB + rng.choice([0, 777]), 5), ('hole', rng.choice([1, 8]) * MB), ('seg', 3 * MB, 6), ('hole', MB)]
     hole = rng.choice([1, 2, 8, 64 if quick else 200]) * MB
     seg = lambda: ('seg', rng.choice([1, 2, 3, 8]) * K - (rng.randrange(1, K) if rng.random() < 0.25 else 0), rng.randrange(1, 1 << 20))
     if kind == 'empty':
@@ -51,13 +58,20 @@ def run(ctx):
             c.no_progress = b == 'nop'; c.bsize = MB if b == 'nop' else b
             c.driver = ['parfile', 'parblock'][i % 2]; c.workers = rng.choice([1, 2, 4, 16]); c.reflink = rng.choice(['auto', 'never'])
             c.prior = 'absent'; c.plan = []; c.extra = []; c.tag = 'gen'
+            if rng.random() < 0.3 or (i < 6 and c.driver == 'parblock'):
+                # a genuinely short kernel copy inside a data extent: the retry must ask for the REMAINDER only — a block that runs past
+                # the end of its extent writes the following hole out as zeros (allocation, not content, shows it)
+                c.plan = [f'clamp copy_file_range D/sp * {rng.choice([1, 2, 3, 5])} {rng.choice([1000, 40000, 700000])}']
+                if i < 6 and c.driver == 'parblock':
+                    data = [('hole', 3 * MB), ('seg', 2 * MB, 5), ('hole', 8 * MB), ('seg', 3 * MB + 777, 6), ('hole', MB)]; c.files = [('sp', data)]
+                    c.no_progress = False; c.bsize = MB; c.plan = [f'clamp copy_file_range D/sp * {1 + i % 5} {768 * 1024}']
             prior_alloc = rng.random() < 0.3
             pairs = br.setup_case(root, c)
             length = scen.data_bytes(data)[0]
             if prior_alloc:     # an existing, fully allocated destination (bounded: up to 24 MiB really written)
                 os.makedirs(root + '/D', exist_ok=True)
                 fsutil.make_file(root + '/D/sp', min(length, 24 * MB) + 12345, [(0, min(length, 24 * MB) + 12345)], seed=3)
-            r = scen.run_xcp(root, br.argv_of(c), timeout=120)
+            r = scen.run_xcp(root, br.argv_of(c), plan=c.plan or None, timeout=120)
             ndata = sum(1 for d in data if d[0] == 'seg')
             ctx.count(f'driver.{c.driver}'); ctx.count('bsize.' + ('usize::MAX' if c.no_progress else str(c.bsize))); ctx.count('prior.allocated' if prior_alloc else 'prior.absent')
             ctx.count(f'segments.{"0" if ndata == 0 else "1" if ndata == 1 else "2-32" if ndata <= 32 else ">32"}'); ctx.count(f'exit.{r.cls}')
